@@ -117,8 +117,9 @@ class Seams:
     datetime.now()         -> constant (module-level `datetime` names patched)
     """
 
-    def __init__(self, clock=1_700_000_000.0):
+    def __init__(self, clock=1_700_000_000.0, tick=0.0):
         self.clock = clock
+        self.tick = tick  # every reading of the clock advances it by this many seconds (0: the clock stands still)
         self.tok = 0
         self.uid = 0
         self._undo = []
@@ -134,7 +135,12 @@ class Seams:
         return uuid.UUID(int=self.uid)
 
     def time(self):
-        return self.clock
+        return self._read()
+
+    def _read(self):
+        t = self.clock
+        self.clock += self.tick
+        return t
 
     def reset(self):
         self.tok = 0
@@ -159,16 +165,16 @@ class Seams:
         class FakeDateTime(_dt.datetime):
             @classmethod
             def now(cls, tz=None):
-                return _dt.datetime.fromtimestamp(seams.clock, tz)
+                return cls.fromtimestamp(seams._read(), tz)  # an instance of the substituted class: isinstance(x, datetime) holds inside the library
 
             @classmethod
             def utcnow(cls):
-                return _dt.datetime.utcfromtimestamp(seams.clock)
+                return cls.utcfromtimestamp(seams._read())
 
         class FakeDate(_dt.date):
             @classmethod
             def today(cls):
-                return _dt.date.fromtimestamp(seams.clock)
+                return cls.fromtimestamp(seams._read())
 
         # patch names already imported into okdmr modules
         for modname, mod in list(sys.modules.items()):
